@@ -232,3 +232,130 @@ func decodeBlobKV(data []byte) (model.Flat, error) {
 	}
 	return model.FlatFromGogo(&g), nil
 }
+
+// ---------------------------------------------------------------------------
+// C14 for shadow DBIs that already hold values written by others (an older or
+// newer version, another tool): whatever the capture pass rewrites - markers for
+// keys that disappeared, new versions of changed keys - is a well-formed value
+// of this version: flags from the synced set only, no inherited extension
+// blocks, the transaction id of the pass, empty when deleted.
+// ---------------------------------------------------------------------------
+
+type C14ShadowEntry struct {
+	Key    model.Bytes `json:"key"`
+	Flags  int         `json:"flags"`           // stored flags byte (any value)
+	NExt   int         `json:"n_ext,omitempty"` // stored extension blocks
+	Val    model.Bytes `json:"val,omitempty"`
+	InMain string      `json:"in_main"` // same | other | absent
+}
+
+type C14ShadowCase struct {
+	Entries []C14ShadowEntry `json:"entries"`
+	Sweeper bool             `json:"sweeper,omitempty"`
+}
+
+func checkC14Shadow(c C14ShadowCase, o *vcore.Obs) error {
+	env := lm.New(32<<20, 8)
+	defer env.Close()
+	s, _ := newShadowSyncerSw(env.Env, "a", config.LMDB{SchemaTracksChanges: false}, c.Sweeper)
+	stored := map[string][]byte{}
+	err := env.Update(func(txn *lmdb.Txn) error {
+		main, err := txn.OpenDBI("d", lmdb.Create)
+		if err != nil {
+			return err
+		}
+		sh, err := txn.OpenDBI("_sync_shadow_d", lmdb.Create)
+		if err != nil {
+			return err
+		}
+		for i, e := range c.Entries {
+			val := []byte(e.Val)
+			if e.Flags&1 != 0 {
+				val = nil // a deleted entry has no value
+			}
+			if len(val) == 0 && e.Flags&1 == 0 {
+				val = []byte("v") // (live empty values in shadow mode: listed known finding, not this check's business)
+			}
+			raw := model.BuildHeader(uint64(1_600_000_000_000_000_000+i), 1, byte(e.Flags), make([]byte, 8*e.NExt), val)
+			if err := txn.Put(sh, e.Key, raw, 0); err != nil {
+				return err
+			}
+			stored[string(e.Key)] = raw
+			switch e.InMain {
+			case "same":
+				if e.Flags&1 == 0 {
+					if err := txn.Put(main, e.Key, val, 0); err != nil {
+						return err
+					}
+				}
+			case "other":
+				if err := txn.Put(main, e.Key, append([]byte("other-"), val...), 0); err != nil {
+					return err
+				}
+			}
+		}
+		return nil
+	})
+	if err != nil {
+		return fmt.Errorf("harness: %v", err)
+	}
+	// (a later entry with the same key overwrites an earlier one: what is stored in the end counts)
+	before, err := lm.DumpEnv(env.Env)
+	if err != nil {
+		return err
+	}
+	var passTxn uint64
+	err = env.Update(func(txn *lmdb.Txn) error {
+		passTxn = uint64(txn.ID())
+		return s.VerifMainToShadow(context.Background(), txn, 1_700_000_000_000_000_000)
+	})
+	if err != nil {
+		return fmt.Errorf("mainToShadow: %v", err)
+	}
+	after, err := lm.DumpEnv(env.Env)
+	if err != nil {
+		return err
+	}
+	old := map[string][]byte{}
+	if d := before.DBI("_sync_shadow_d"); d != nil {
+		for _, e := range d.Entries {
+			old[string(e.Key)] = e.Val
+		}
+	}
+	rewritten := 0
+	if d := after.DBI("_sync_shadow_d"); d != nil {
+		for _, e := range d.Entries {
+			if bytes.Equal(old[string(e.Key)], e.Val) {
+				continue
+			}
+			rewritten++
+			if _, err := model.CheckLSWritten(e.Val, passTxn, false); err != nil {
+				oh, _ := model.ReadHeader(old[string(e.Key)])
+				return fmt.Errorf("shadow entry %x rewritten by the capture pass (stored before with flags %#x, %d extension blocks): %v", e.Key, oh.Flags, oh.NumExt, err)
+			}
+		}
+	}
+	o.NonTrivial(rewritten > 0)
+	for _, e := range c.Entries {
+		o.ClassIf(e.Flags&^1 != 0, "stored-flags-outside-the-synced-set")
+		o.ClassIf(e.NExt > 0, "stored-extension-blocks")
+	}
+	return nil
+}
+
+func TestC14Shadow(t *testing.T) {
+	vcore.Run(t, vcore.Config{Property: "C14",
+		Rule: "rapid: a shadow DBI pre-populated with 1-6 values written by 'others' (any flags byte incl. bits outside the synced set, 0-3 extension blocks, live or deleted) next to an application DBI in which each key is unchanged / changed / gone; one capture pass (VerifMainToShadow): every shadow value the pass rewrote is a well-formed value of this version - flags from the synced set only, no extension blocks, the pass's transaction id, reserved bytes zero, empty when deleted; non-trivial = the pass rewrote at least one value"},
+		func(t *rapid.T) C14ShadowCase {
+			var c C14ShadowCase
+			c.Sweeper = rapid.IntRange(0, 2).Draw(t, "sweeper") == 0
+			for i := rapid.IntRange(1, 6).Draw(t, "n"); i > 0; i-- {
+				c.Entries = append(c.Entries, C14ShadowEntry{Key: gen.BytesN(t, "key", 1, 4),
+					Flags:  rapid.SampledFrom([]int{0, 0, 1, 1, 0x40, 0x41, 0x80, 0x02, 0xfe, 0xff}).Draw(t, "flags"),
+					NExt:   rapid.SampledFrom([]int{0, 0, 1, 3}).Draw(t, "next"),
+					Val:    rapid.SampledFrom([]model.Bytes{[]byte("v1"), []byte("v2"), {}}).Draw(t, "val"),
+					InMain: rapid.SampledFrom([]string{"same", "other", "absent", "absent"}).Draw(t, "in_main")})
+			}
+			return c
+		}, checkC14Shadow)
+}
